@@ -289,8 +289,105 @@ func c17Resize(c *core.Ctx) {
 			}
 		}
 	}
+	// locked runner: a same-package helper `withLock(f func())` that calls its func parameter exactly
+	// once, outside any loop, with the semaphore's mutex held, and releases the mutex on every exit. A
+	// literal handed to it is a critical section of its own (the engine does not interpret closures
+	// passed as arguments, so the helper is summarised here).
+	runnerMemo := map[*flow.Func]int{} // 0 unknown, 1 locked runner, 2 no runner, 3 runs its parameter WITHOUT the mutex
+	isRunner := func(g *flow.Func) bool {
+		if g == nil {
+			return false
+		}
+		if v := runnerMemo[g]; v != 0 {
+			return v == 1 || v == 3
+		}
+		runnerMemo[g] = 2
+		if g.Type == nil || g.Type.Params == nil {
+			return false
+		}
+		var fp types.Object
+		nFunc := 0
+		for _, fld := range g.Type.Params.List {
+			if tv := g.Info.Types[fld.Type]; tv.Type != nil && tv.Type.String() == "func()" {
+				for _, nm := range fld.Names {
+					nFunc++
+					fp = g.Info.Defs[nm]
+				}
+			}
+		}
+		if nFunc != 1 || fp == nil {
+			return false
+		}
+		var pcalls []*ast.CallExpr
+		for _, call := range calls(g.Body, true) {
+			if id, ok := ast.Unparen(call.Fun).(*ast.Ident); ok && g.Info.Uses[id] == fp {
+				pcalls = append(pcalls, call)
+			}
+		}
+		if len(pcalls) != 1 || len(enclosingLoops(g.Body, pcalls[0])) > 0 {
+			return false
+		}
+		okRun, reached := true, 0
+		rres, err := flow.Analyze(g, flow.Config{NoHavoc: true,
+			OnCall: func(st *flow.State, call *ast.CallExpr, callee types.Object, deferred bool) {
+				if op, recv := c17Mutex(g, call); op != "" && isMutex(recv) {
+					st.Set("ev:c17:runner-locked", flow.Val(map[bool]flow.Val{true: flow.True, false: flow.False}[op == "Lock"]))
+					return
+				}
+				if call == pcalls[0] {
+					reached++
+					if !st.Is("ev:c17:runner-locked", flow.True) || deferred {
+						okRun = false
+					}
+				}
+			}})
+		if err != nil || reached == 0 {
+			return false
+		}
+		runnerMemo[g] = 1
+		if !okRun {
+			runnerMemo[g] = 3
+		}
+		for _, ex := range rres.Exits {
+			if ex.State.Is("ev:c17:runner-locked", flow.True) {
+				runnerMemo[g] = 3 // keeps the mutex: reported through the missing-lock path below
+			}
+		}
+		return true
+	}
+	runnerLocks := func(call *ast.CallExpr) bool {
+		fo := c17CalleeFunc(f, call)
+		return fo != nil && runnerMemo[bind.byObj[fo.Origin()]] == 1
+	}
+	// runnerCallOf: the call `s.withLock(<lit>)` a literal is handed to (a plain statement), or nil
+	runnerCallOf := func(u c17Unit) *ast.CallExpr {
+		if u.lit == nil || u.g == nil {
+			return nil
+		}
+		pm := pmOf(u.g)
+		call, ok := pm[u.lit].(*ast.CallExpr)
+		if !ok || ast.Unparen(call.Fun) == ast.Expr(u.lit) {
+			return nil
+		}
+		if _, isStmt := pm[call].(*ast.ExprStmt); !isStmt {
+			return nil
+		}
+		fo := c17CalleeFunc(f, call)
+		if fo == nil || !isRunner(bind.byObj[fo.Origin()]) {
+			return nil
+		}
+		return call
+	}
 	ru, wu := unitOf(readStmt), unitOf(writeStmt)
-	if ru != wu || ru.lit != nil {
+	var lockedLit *c17Unit // read and store sit in one literal run under the mutex by a locked runner
+	if ru == wu && runnerCallOf(ru) != nil && !isGoUnit(ru) {
+		lockedLit = &ru
+	} else if ru != wu && !isGoUnit(ru) && !isGoUnit(wu) && (runnerCallOf(ru) != nil || runnerCallOf(wu) != nil) {
+		c.Violate("R-C17-4", cons+"|read-modify-write in one critical section", pos(c, writeStmt),
+			"the old capacity is read and the new capacity is stored in two different critical sections (separate locked closures): a concurrent SetMaxCount in between makes the applied delta wrong and the effective cap drifts from the configured one")
+		return
+	}
+	if lockedLit == nil && (ru != wu || ru.lit != nil) {
 		switch {
 		case ru != wu && isGoUnit(wu):
 			c.Violate("R-C17-4", cons+"|read-modify-write in one critical section", pos(c, writeStmt),
@@ -337,11 +434,20 @@ func c17Resize(c *core.Ctx) {
 	}
 
 	// mkConfig analyses one unit; outer are the states in which the unit was started (nil for the root)
+	litWrote := false // every exit of the locked literal has stored the new capacity
 	mkConfig := func(unit c17Unit, outerRel func() int, inl func(*ast.CallExpr, *types.Func) *flow.Func) flow.Config {
 		return flow.Config{
 			NoHavoc: true,
 			Inline:  inl,
 			OnNode: func(st *flow.State, n ast.Node) {
+				if lockedLit != nil && unit == *lockedLit && !st.Is("ev:c17:entered", flow.True) {
+					// the literal runs with the mutex held (summary of the locked runner); a runner that
+					// calls its parameter outside the mutex gives no such guarantee
+					st.Set("ev:c17:entered", flow.True)
+					if runnerLocks(runnerCallOf(*lockedLit)) {
+						st.Set(evLocked, flow.True)
+					}
+				}
 				as, ok := n.(*ast.AssignStmt)
 				if !ok {
 					return
@@ -376,6 +482,13 @@ func c17Resize(c *core.Ctx) {
 				}
 			},
 			OnCall: func(st *flow.State, call *ast.CallExpr, callee types.Object, deferred bool) {
+				if lockedLit != nil && unit != *lockedLit && call == runnerCallOf(*lockedLit) {
+					// summary: the locked literal ran (its own analysis checks what it does)
+					if litWrote {
+						st.Set(evWrote, flow.True)
+					}
+					return
+				}
 				if op, recv := c17Mutex(f, call); op != "" && isMutex(recv) {
 					switch op {
 					case "Lock":
@@ -429,6 +542,29 @@ func c17Resize(c *core.Ctx) {
 		return false
 	})
 	rootUnit := c17Unit{g: f}
+	if lockedLit != nil {
+		lres := analyze(c, lockedLit.g.Lit(lockedLit.lit), mkConfig(*lockedLit, nil, nil))
+		if lres == nil {
+			return
+		}
+		litWrote = len(lres.Exits) > 0
+		for _, ex := range lres.Exits {
+			if !ex.State.Is(evWrote, flow.True) {
+				litWrote = false
+			}
+		}
+		if !litWrote {
+			badRMW = append(badRMW, bad{nil, "the locked closure reads the old capacity but does not store the new one on every path", lockedLit.lit})
+		}
+		inner := rootInl
+		runnerCall := runnerCallOf(*lockedLit)
+		rootInl = func(call *ast.CallExpr, callee *types.Func) *flow.Func {
+			if call == runnerCall {
+				return nil
+			}
+			return inner(call, callee)
+		}
+	}
 	res := analyze(c, f, mkConfig(rootUnit, nil, rootInl))
 	if res == nil {
 		return
